@@ -48,12 +48,12 @@ func TimestampFromOOBData(oob []byte) (time.Time, error) {
 				var ts time.Time
 				if sec2 != 0 || nsec2 != 0 {
 					if sec0 != 0 || nsec0 != 0 || sec1 != 0 || nsec1 != 0 {
-						panic("unexpected timestamping behavior")
+						return time.Time{}, errUnexpectedData
 					}
 					ts = time.Unix(sec2, nsec2).UTC()
 				} else {
 					if sec1 != 0 || nsec1 != 0 || sec2 != 0 || nsec2 != 0 {
-						panic("unexpected timestamping behavior")
+						return time.Time{}, errUnexpectedData
 					}
 					ts = time.Unix(sec0, nsec0).UTC()
 				}
